@@ -640,6 +640,8 @@ def run(chk: Check) -> None:
     d14_anchor_is_written(chk)
     d15_options_survive_recursion(chk)
     d16_no_equality_shortcut(chk)
+    d17_every_match_is_changed(chk)
+    d7c_presentation_set_in_one_place(chk)
     from rules.shared import shared_state_rule
     shared_state_rule(chk, "C03-D11", ("yamlpath/processor.py",
                                    "yamlpath/common/nodes.py"), 45)
@@ -738,6 +740,82 @@ def d16_no_equality_shortcut(chk: Check) -> None:
     if n < 4:
         raise AnalysisError("functions taking the new value on the set "
                             "path: {}".format(n))
+
+
+def d17_every_match_is_changed(chk: Check) -> None:
+    """set_value changes *every* node its query matches.  Whether two
+    matches are "the same node" cannot be told from the Python object:
+    equal small integers, booleans, nulls and short strings are one
+    interned object, yet they sit at different places of the document.  The
+    match loops of set_value therefore hand each match to _apply_change
+    unconditionally (aliases are followed later, by position or anchor)."""
+    prog = chk.prog
+    chk.rule("C03-D17", "each match loop of set_value applies the change to "
+             "every match: no skip (continue / break / conditional call) "
+             "and no id()-keyed bookkeeping of nodes", floor=2)
+    fi = prog.func("Processor.set_value")
+    n = 0
+    for loop in walk_local(fi.node):
+        if not isinstance(loop, ast.For):
+            continue
+        it = src(loop.iter)
+        if "_get_required_nodes" not in it and \
+                "_get_optional_nodes" not in it:
+            continue
+        n += 1
+        text = "for {} in {}".format(src(loop.target), it[:50])
+        applies = [st for st in loop.body if isinstance(st, ast.Expr) and
+                   isinstance(st.value, ast.Call) and
+                   src(st.value.func).endswith("_apply_change")]
+        jumps = [x for st in loop.body for x in ast.walk(st)
+                 if isinstance(x, (ast.Continue, ast.Break))]
+        ids = [x for st in loop.body for x in ast.walk(st)
+               if isinstance(x, ast.Call) and src(x.func) == "id"]
+        if applies and not jumps and not ids:
+            chk.ok("C03-D17", fi, loop, text, "_apply_change for every "
+                   "match")
+        else:
+            chk.fail("C03-D17", fi, (jumps or ids or [loop])[0], text,
+                     "some matches are skipped{}: equal small ints, "
+                     "booleans, nulls and one-character strings are one "
+                     "interned object, so `[1, 1, 2]` set through `*` "
+                     "becomes `[9, 1, 9]`".format(
+                         " by object identity (id())" if ids else ""))
+    if n < 2:
+        raise AnalysisError("match loops of set_value: {}".format(n))
+
+
+def d7c_presentation_set_in_one_place(chk: Check) -> None:
+    """How a float is written (width, precision, sign, exponent) is decided
+    by make_float_node from the *new* value (C03-D7 folds that routine).
+    A later store to one of those fields -- e.g. the old node's number of
+    decimals copied onto the replacement -- makes ruamel round the value
+    when the document is dumped: in memory 2.125, in the file 2.1."""
+    prog = chk.prog
+    chk.rule("C03-D7c", "no store to a presentation field of a scalar node "
+             "(_width, _prec, _exp, _m_sign, _m_lead0, _e_width, _e_sign, "
+             "_underscore) anywhere in nodes.py / processor.py", floor=40)
+    fields = {"_width", "_prec", "_exp", "_m_sign", "_m_lead0", "_e_width",
+              "_e_sign", "_underscore"}
+    n = 0
+    for rel in ("yamlpath/common/nodes.py", "yamlpath/processor.py"):
+        for fi in prog.funcs_in(rel):
+            n += 1
+            bad = [t for t in walk_local(fi.node)
+                   if isinstance(t, ast.Attribute) and t.attr in fields and
+                   isinstance(t.ctx, ast.Store)]
+            if bad:
+                chk.fail("C03-D7c", fi, bad[0], "{}: `{} = ...`".format(
+                    fi.short, src(bad[0])),
+                    "the presentation of the replacement node is changed "
+                    "after make_float_node derived it from the new value: "
+                    "a width / precision that does not fit the value makes "
+                    "the dumped text a different number")
+            else:
+                chk.ok("C03-D7c", fi, fi.node, fi.short, "no such store",
+                       False)
+    if n < 40:
+        raise AnalysisError("functions examined: {}".format(n))
 
 
 def d14_anchor_is_written(chk: Check) -> None:
